@@ -14,9 +14,9 @@ CLAIMED = {
 }
 CLAIMED["C15"] = dict(
     engine="kv",
-    technique="Coq proof (refinement of cachekv to a sorted-map overlay; merge-iterator state machine = overlay merge, by induction) + differential correspondence model vs store/cachekv",
+    technique="Coq proof (refinement of cachekv to a sorted-map overlay; merge-iterator state machine = overlay merge, by induction) + differential correspondence model vs store/cachekv + schedule-directed concurrent scenarios explained by a sequential order of the model",
     text="Machine-checked: the cacheMergeIterator state machine transcribed from the code terminates and yields exactly the overlay of parent and cache items (sorted, duplicate-free, no deleted keys) for every pair of sequences and both directions; Get/Set/Delete/Write on cache nests of any depth refine the plain sorted map (parent untouched until Write, Write leaves parent = overlaid view and a clean wrapper). The model (incl. dirtyItems / memIterator mechanics) is tied to the code by running identical seeded programs on both every run and comparing every result.",
-    note="Trusted: Coq kernel, extraction, OCaml/Go drivers, tm-db MemDB as the base store. Partial: dirtyItems/unsorted/sorted-list mechanics are modelled and compared but their invariant is not yet proved; goroutine data-race freedom is outside a Gallina model (each entry point is one atomic step under the mutex).",
+    note="Trusted: Coq kernel, extraction, OCaml/Go drivers, tm-db MemDB as the base store. Partial: dirtyItems/unsorted/sorted-list mechanics are modelled and compared but their invariant is not yet proved; goroutine schedules: in the model each entry point is one atomic step (the mutex); the `lin` engine holds a reader open inside the parent read while a writer runs and requires the outcome to equal one of the two sequential orders of the model - directed schedules, not all interleavings; data-race freedom in the Go memory-model sense is not checked.",
     design_ref="§6 C15")
 CLAIMED["C16"] = dict(
     engine="kv",
@@ -38,19 +38,19 @@ CLAIMED["C03"] = dict(
     design_ref="§6 C03")
 CLAIMED["C04"] = dict(
     engine="app",
-    technique='Coq proof of the exact step lemmas (stake moves exactly the amount; payouts/burns conserve) + history-level oracle pool = sum(stake) on the implementation + correspondence',
-    text='Stake moves exactly msg.Value account->pool->record, proved; the history-level invariant pool = sum of staked+unstaking stake is checked after every op on the implementation and against the model (its Coq proof is partial, see Props/C04.v).',
+    technique='Coq proof: history-level invariant (pool >= sum of recorded stake of not-unstaked validators, unstaked record nothing, no negative stake) over all histories + exact step lemmas + oracle pool = sum(stake) on the implementation + correspondence',
+    text='Proved for every history (C04_pool_backs_stake_all_histories, premises: distinct module addresses, no tx signed by the pool address): the pool balance backs the recorded stake one-for-one (>=; surplus only through deposits to the pool address); stake moves exactly msg.Value account->pool->record. Exact equality pool = sum(stake) is checked after every op on the implementation.',
     note="Trusted: Coq kernel, extraction, OCaml/Go drivers incl. the projection of raw store bytes to the compared state and the emulated Tendermint set; ed25519/amino/IAVL as used by the real code. The L1 model is a hand transcription of x/auth, x/pos, x/gov and the baseapp block cycle (single denomination); Go panics outside runTx are [None] (block aborts).",
     design_ref="§6 C04")
 CLAIMED["C05"] = dict(
     engine="app",
-    technique='Coq proof (byte order of power-rank keys = (power, inverted address); injectivity) + oracle comparing the emulated Tendermint set with top-N after every EndBlock + correspondence',
+    technique='Coq proof (byte order of power-rank keys = (power, inverted address); injectivity; over all histories every index entry is a staked unjailed validator under the key of its current stake) + oracle comparing the emulated Tendermint set with top-N after every EndBlock + correspondence',
     text="Proved: reverse iteration of the power index is power-descending/address-ascending and keys are injective. Checked on the implementation: every update batch is applicable and yields exactly the top-MaxValidators staked unjailed set; updates equal the model's.",
     note="Trusted: Coq kernel, extraction, OCaml/Go drivers incl. the projection of raw store bytes to the compared state and the emulated Tendermint set; ed25519/amino/IAVL as used by the real code. The L1 model is a hand transcription of x/auth, x/pos, x/gov and the baseapp block cycle (single denomination); Go panics outside runTx are [None] (block aborts).",
     design_ref="§6 C05")
 CLAIMED["C06"] = dict(
     engine="app",
-    technique='Coq proof (index membership rules, maturity never early via big-endian time-key order) + transition/queue/index oracle on the implementation + correspondence',
+    technique='Coq proof over all histories (power index sound; every unstaking validator queued under its completion time; EndBlock leaves nobody whose completion time is reached; maturity never early) + transition/queue/index oracle on the implementation + correspondence',
     text='Proved: jailed or non-staked validators are never indexed, jailing removes the entry, only queue slots due at the block time are processed. Checked after every op: index exactness, queue membership, legal transitions, exact and timely payout.',
     note="Trusted: Coq kernel, extraction, OCaml/Go drivers incl. the projection of raw store bytes to the compared state and the emulated Tendermint set; ed25519/amino/IAVL as used by the real code. The L1 model is a hand transcription of x/auth, x/pos, x/gov and the baseapp block cycle (single denomination); Go panics outside runTx are [None] (block aborts).",
     design_ref="§6 C06")
@@ -62,13 +62,13 @@ CLAIMED["C07"] = dict(
     design_ref="§6 C07")
 CLAIMED["C08"] = dict(
     engine="app",
-    technique='Coq proof (threshold = half-even rounding) + sliding-window oracle recomputed from the vote stream on the implementation + correspondence of counter/bit array/offset',
+    technique='Coq proof (ring-buffer update rule = sliding window for every window size and vote sequence; threshold = half-even rounding) + sliding-window oracle recomputed from the vote stream on the implementation + correspondence of counter/bit array/offset',
     text='Proved: MinSignedPerWindow is the half-even rounding of fraction*window. Checked for every vote: counter = misses in the last W votes = stored bits, jailed at exactly the first crossing after start+W, window cleared.',
     note="Trusted: Coq kernel, extraction, OCaml/Go drivers incl. the projection of raw store bytes to the compared state and the emulated Tendermint set; ed25519/amino/IAVL as used by the real code. The L1 model is a hand transcription of x/auth, x/pos, x/gov and the baseapp block cycle (single denomination); Go panics outside runTx are [None] (block aborts).",
     design_ref="§6 C08")
 CLAIMED["C09"] = dict(
     engine="app",
-    technique='Coq proof (unjail preconditions, jail removes index entry, tombstone permanent) + oracle + correspondence',
+    technique='Coq proof (unjail preconditions; over all histories: jailed validators have no index entry, a tombstone is never lifted and a tombstoned validator stays jailed and never regains an index entry) + oracle + correspondence',
     text='Proved: unjail succeeds only if jailed, stake >= minimum, not tombstoned, time >= jailed-until, and re-indexes a staked validator under its remaining stake; jailing removes the index entry; double-sign tombstones and a tombstoned validator never unjails.',
     note="Trusted: Coq kernel, extraction, OCaml/Go drivers incl. the projection of raw store bytes to the compared state and the emulated Tendermint set; ed25519/amino/IAVL as used by the real code. The L1 model is a hand transcription of x/auth, x/pos, x/gov and the baseapp block cycle (single denomination); Go panics outside runTx are [None] (block aborts).",
     design_ref="§6 C09")
@@ -166,6 +166,8 @@ def main():
              "kind_free_text": "real keys, nested multisig verification with mutated signature trees, keybase op histories vs the ideal-primitive model"},
             {"name": "codec", "path": "harness/cmd/codec", "serves_properties": ["C20"],
              "kind_free_text": "amino binary/JSON round trips of all wire and storage types, sign-bytes canonicity and sensitivity, random/mutated bytes through every decoder and CheckTx/DeliverTx, key builders, uvarint frames and canonical JSON vs the extracted byte-level model"},
+            {"name": "lin", "path": "harness/cmd/lin", "serves_properties": ["C15"],
+             "kind_free_text": "schedule-directed concurrency: a reader held open inside the parent read while a writer runs on the same cachekv wrapper; every outcome must equal one of the two sequential orders on the proved model"},
             {"name": "kv", "path": "harness/cmd/kv", "serves_properties": ["C15", "C16"],
              "kind_free_text": "random programs on random stackings of cachekv/prefix/gaskv/tracekv over MemDB vs the extracted Coq store model"},
         ],
